@@ -423,6 +423,54 @@ def _belongs_values(rec):
                               expected=want, observed=got)
 
 
+def _belongs_member_types(rec):
+    """The members of the set written under every number type a user meets (Python bool / int / float, numpy bool, integers
+    and floats of several widths): a member equal to 1 (or 0, 2) is the same member whatever its type."""
+    import numpy as np
+    import biogeme.expressions as ex
+    from vf.engine import make_db
+    vals = [0.0, 1.0, 2.0, 3.0, 0.5]
+    db = make_db([dict(z=v) for v in vals], ['z'])
+    forms = {
+        'python-bool': lambda v: bool(v) if v in (0.0, 1.0) else None,
+        'numpy-bool': lambda v: np.bool_(bool(v)) if v in (0.0, 1.0) else None,
+        'python-int': lambda v: int(v) if float(v).is_integer() else None,
+        'numpy-int64': lambda v: np.int64(v) if float(v).is_integer() else None,
+        'numpy-int8': lambda v: np.int8(v) if float(v).is_integer() else None,
+        'numpy-uint16': lambda v: np.uint16(v) if float(v).is_integer() else None,
+        'numpy-float32': lambda v: np.float32(v),
+        'numpy-float64': lambda v: np.float64(v),
+        'python-float': lambda v: float(v),
+    }
+    for fname, conv in forms.items():
+        for k in (1, 2):
+            for members in itertools.combinations(vals, k):
+                typed = [conv(m) for m in members]
+                if any(t is None for t in typed):
+                    continue
+                # (a Python set merges True with 1 and 1.0: the member that stays is of the type under test)
+                the_set = set(typed)
+                want = [1.0 if v in members else 0.0 for v in vals]
+                tag = f'belongs:{fname}:{members}'
+                try:
+                    e = ex.BelongsTo(ex.Variable('z'), the_set)
+                    got = [float(v) for v in e.get_value_c(database=db, prepare_ids=True)]
+                except Exception as exc:
+                    rec.case((tag,), (tag, type(exc).__name__), outcome='belongs-type-raised')
+                    rec.violation(f'C01|engine-path-raised-{type(exc).__name__}|belongs:members-of-type-{fname}', f'{tag}: {str(exc)[:160]}',
+                                  dict(part='belongs_member_types'))
+                    from vf.engine import is_engine_error
+                    if is_engine_error(exc):
+                        rec.retire = True
+                        return
+                    continue
+                rec.case((tag,), (tag, got), outcome='belongs-type')
+                if got != want:
+                    rec.violation(f'C01|engine-value|belongs:members-of-type-{fname}',
+                                  f'BelongsTo(z, {the_set!r}) on z = {vals}: {got}, expected {want}', dict(part='belongs_member_types'),
+                                  expected=want, observed=got)
+
+
 def _int_typed(rec):
     """Parameters declared with Python ints (Beta('a', 10, ...) keeps the int) and integer literals: every binary
     operator kind over all ordered pairs of 8 whole-number values (incl. negative ones and results beyond 2**63), and over
@@ -578,6 +626,7 @@ def tasks(tier, seed):
     t.append(dict(part='ncdf_tail'))
     t.append(dict(part='int_typed'))
     t.append(dict(part='belongs_values'))
+    t.append(dict(part='belongs_member_types'))
     for ti in range(len(FIXH_TERMS)):
         t.append(dict(part='fixed_history', term=ti))
     for i in range(len(renumber_cases())):
@@ -630,6 +679,8 @@ def run_task(task):
             _int_typed(rec)
         elif part == 'belongs_values':
             _belongs_values(rec)
+        elif part == 'belongs_member_types':
+            _belongs_member_types(rec)
         elif part == 'fixed_history':
             _fixed_history(task, rec)
         elif part == 'ncdf_tail':
@@ -739,6 +790,8 @@ def replay(case):
             return run_task(dict(part='int_typed'))['violations']
         elif part == 'belongs_values':
             return run_task(dict(part='belongs_values'))['violations']
+        elif part == 'belongs_member_types':
+            return run_task(dict(part='belongs_member_types'))['violations']
         elif part == 'fixed_history':
             return [v for v in run_task(dict(part='fixed_history', term=case['term']))['violations']
                     if v['case'].get('history') == case.get('history')]
